@@ -88,12 +88,12 @@ func propDefs() map[string]*PropDef {
 	}
 	m["C05"] = &PropDef{
 		ID: "C05",
-		Funcs: append(wrapperFuncs([]string{"Minimum", "Maximum", "restoreKey"}, safetyInc),
-			FuncCheck{Fn: "minimum", Layer: "C"}, FuncCheck{Fn: "maximum", Layer: "C"}),
+		Funcs: append(append(wrapperFuncs([]string{"Minimum", "Maximum", "restoreKey", "TopK", "BottomK"}, safetyInc),
+			FuncCheck{Fn: "minimum", Layer: "C"}, FuncCheck{Fn: "maximum", Layer: "C"}), boundedSeqFuncs(nil)...),
 		Static: func(p *Program) []*Obligation { return reiterableObligations(p, []string{"topK$1", "bottomK$1"}) },
 		Floor: 250,
 		Assumptions: []string{
-			"SCOPE: decides for Minimum and Maximum of all six kinds: they report 'none' exactly when the tree is empty (none_iff_empty), otherwise return the key and value of a live leaf of this tree reached by the leftmost / rightmost occupied slot of every node class on the way (contracts of minimum/maximum: first/last occupied slot per class, result is a leaf, loop terminates), fault-free for every tree satisfying WF1, and write nothing. For TopK/BottomK only the per-iteration remaining count (defect F6, fixed) is decided, statically",
+			"SCOPE: decides for Minimum and Maximum of all six kinds: they report 'none' exactly when the tree is empty (none_iff_empty), otherwise return the key and value of a live leaf of this tree reached by the leftmost / rightmost occupied slot of every node class on the way (contracts of minimum/maximum: first/last occupied slot per class, result is a leaf, loop terminates), fault-free for every tree satisfying WF1, and write nothing. For TopK/BottomK: the per-iteration remaining count (defect F6, fixed) statically; the loop body never decrements below zero (n == 0 and exhausted counts return before yielding), stops when the consumer stops, and faults nowhere (contracts of topK$1/$1$1, bottomK$1/$1$1 - see C14)",
 			"NOT decided: that the leftmost leaf holds the smallest key (needs the ordering clause of the tree invariant, rung 2); the element sequences of TopK/BottomK",
 		},
 		DesignRef: "DESIGN.md section 5 C05, section 12",
@@ -136,7 +136,7 @@ func propDefs() map[string]*PropDef {
 	m["C15"] = &PropDef{
 		ID: "C15",
 		Funcs: append(treeFuncs([]string{"Search", "Size", "Delete", "Insert"},
-			map[string][]string{"Search": {`/pure`}, "Size": {`/pure`}, "Delete": {`/noop_frame`}, "Insert": {`/overwrite_only_value`}}, nil), append(seqFuncs([]string{`/pure`}), wrapperFuncs(allWrappers, []string{`/pure`})...)...),
+			map[string][]string{"Search": {`/pure`}, "Size": {`/pure`}, "Delete": {`/noop_frame`}, "Insert": {`/overwrite_only_value`}}, nil), append(append(seqFuncs([]string{`/pure`}), boundedSeqFuncs([]string{`/pure`})...), wrapperFuncs(allWrappers, []string{`/pure`})...)...),
 		Floor: 100,
 		Assumptions: []string{
 			"frame obligations: Search and Size leave every heap array unchanged on every object that existed at entry; Delete returning false leaves the heap unchanged; the overwrite exit of Insert changes nothing but the value field of a leaf",
@@ -149,14 +149,15 @@ func propDefs() map[string]*PropDef {
 		"(*unsignedSortedTree[K,V]).Range$1", "(*signedSortedTree[K,V]).Range$1", "(*floatSortedTree[K,V]).Range$1"}
 	m["C14"] = &PropDef{
 		ID:     "C14",
-		Funcs:  append(seqFuncs(append([]string{`/protocol/`}, safetyInc...)), wrapperFuncs([]string{"All", "Backward", "Range", "Prefix"}, safetyInc)...),
+		Funcs:  append(append(seqFuncs(append([]string{`/protocol/`}, safetyInc...)), wrapperFuncs([]string{"All", "Backward", "Range", "Prefix", "TopK", "BottomK"}, safetyInc)...), boundedSeqFuncs(nil)...),
 		Static: func(p *Program) []*Obligation { return reiterableObligations(p, seqClosures) },
 		Floor:  500,
 		Assumptions: []string{
 			"SCOPE: this check decides the re-iteration half of C14: no sequence closure (nor anything nested in it, including the synthetic range-over-func bodies) stores to a variable that outlives one invocation - captured variables of the function that created the sequence, or package-level variables. With the tree unchanged, a closure that writes nothing that survives it starts every invocation from the same state",
 			"glue G-det (paper): the closures are deterministic (no maps, goroutines, time, randomness) and read only their immutable captures and the heap",
 			"stopped-early half: in the traversal closures of All, Backward, Prefix and Range (all$1, backward$1, filter$1, rangeScan$1 per leaf class, the single-key closure of the numeric Range) a ghost flag records that yield returned false; every later call of yield carries the obligation that the flag is clear (protocol/no_call_after_false), and every index, cast, unsafe.Slice and callee precondition in them carries its safety obligation for every tree satisfying WF1 and every stack content satisfying the loop invariants. The constructors (All, Backward, Prefix, Range) are proved to establish what the closures capture (root non-nil for rangeScan)",
-			"NOT decided: topK$1/bottomK$1 beyond the re-iteration half (their range-over-func bodies are not symbolically executed); that the heap still satisfies WF1 when the sequence is iterated (it is a precondition of the closures: the statement says 'with the tree unchanged'); the overflow of rangeScan's per-entry depth counter (needs rung 2); identity of the two passes (follows from determinism + purity, glue G-det)",
+			"TopK/BottomK: the synthetic body closure of the range-over-func loop (topK$1$1, bottomK$1$1) is under contract: it is entered only in the ready state (jump == 0: proved where the iterator is called, re-established by every call that returns true), calls the consumer's yield only while the stop flag is clear (no_call_after_false), returns false whenever the consumer said stop (stop_propagates) and leaves the loop state consistent (closure_inv: stopped => left for good), so neither synthetic panic (\"yield function called after range loop exit\", \"iterator call did not preserve panic\") is reachable. ASSUMED for the sequence obtained through the Tree interface: it obeys the protocol proved above for this package's own iterators (sequential calls, none after false) and, like every callback in this model, does not write the tree",
+			"NOT decided: that the heap still satisfies WF1 when the sequence is iterated (it is a precondition of the closures: the statement says 'with the tree unchanged'); the overflow of rangeScan's per-entry depth counter (needs rung 2); identity of the two passes (follows from determinism + purity, glue G-det)",
 			"decided by static analysis of the SSA (store targets resolved through the closure-binding chain), not by the SMT solvers",
 		},
 		DesignRef: "DESIGN.md section 5 C14",
@@ -316,7 +317,7 @@ func wrapperFuncs(methods []string, include []string) []FuncCheck {
 		return false
 	}
 	for _, k := range genKinds {
-		for _, m := range []string{"restoreKey", "Minimum", "Maximum", "All", "Backward", "Range"} {
+		for _, m := range []string{"restoreKey", "Minimum", "Maximum", "All", "Backward", "Range", "TopK", "BottomK"} {
 			if has(m) {
 				out = append(out, FuncCheck{Fn: "(*" + k + "SortedTree[K,V])." + m, Layer: "C", Include: include})
 			}
@@ -334,7 +335,17 @@ func wrapperFuncs(methods []string, include []string) []FuncCheck {
 	return out
 }
 
-var allWrappers = []string{"restoreKey", "Minimum", "Maximum", "All", "Backward", "Range", "Prefix"}
+var allWrappers = []string{"restoreKey", "Minimum", "Maximum", "All", "Backward", "Range", "Prefix", "TopK", "BottomK"}
+
+// boundedSeqFuncs: TopK/BottomK - the closure returned by topK/bottomK and the synthetic body of
+// its range-over-func loop.
+func boundedSeqFuncs(include []string) []FuncCheck {
+	var out []FuncCheck
+	for _, f := range []string{"topK$1", "topK$1$1", "bottomK$1", "bottomK$1$1"} {
+		out = append(out, FuncCheck{Fn: f, Layer: "C", Include: include})
+	}
+	return out
+}
 
 func node16OtherFuncs() []FuncCheck {
 	return []FuncCheck{
